@@ -18,7 +18,7 @@ for d in sorted(glob.glob("/verif/seeded/C*-*")):
     if m.get("applies_on_final_main") is False:
         rows.append("| %s | %s | — | — | patch no longer applies (see meta.json `note`) |" % (name, what))
         continue
-    cf = m.get("checks_final") or {}
+    cf = m.get("checks_final") or m.get("checks") or {}  # round 5 was confirmed against the final main directly
     own = m["property"]
     def how(r):
         if r["exit"] != 1:
